@@ -698,6 +698,12 @@ type wgClassStats struct {
 func wgClasses(res *wgResult, m *gen.Model) []string {
 	var cls []string
 	g := res.G
+	if m.Scaled != "" {
+		cls = append(cls, "model:scaled", "model:scaled:"+m.Scaled)
+	}
+	if m.SparseMeta {
+		cls = append(cls, "model:sparse-metadata")
+	}
 	if res.SpecOK {
 		cls = append(cls, "spec:accepted")
 	} else {
